@@ -19,6 +19,29 @@
                                  every stream with labels on and a non-empty final fragment violates
                                  it, in exactly one way: bare label, then the data;
     * `line_records_atomic`      holds for both forms: all LINE records are whole and come first.
+
+  CLAUSE OF THE STATEMENT                                   THEOREM
+  each line = one contiguous record `label: line`           line_records_atomic, records_atomic_partial (+ _index)
+  (just the line with -N)                                   same theorems with `cfg.labels = false` (`pfx = []`)
+  final fragment after all lines, label + bytes one record  records_atomic_partial (`Spec.tailOk`), tail_split_is_the_defect (D6)
+  "(the whole fragment when it is shorter than 8 KiB)"      final_fragment_cut_exactly, final_fragment_whole_iff: ONE call iff
+                                                              length <= RELAY_TAILBUF-1 (regenerated; `tailbuf_ge`: >= 8192);
+                                                              longer: labelled piece of T-1 bytes, then unlabelled T-1-byte pieces
+  no byte of one host's record inside another's,            records_atomic_any_schedule, records_atomic_index_any_schedule
+    records of one host keep their order                      (LogOk: the global call sequence restricted to a stream is its own)
+  label = the host's own name, shortened only if ...        label_correct, domain_flag_correct, records_carry_own_label,
+                                                              records_own_label_any_schedule (target list, -N and -K, any schedule)
+  `_flush_output` hands `_flush_lines` the global `t`       flush_lines_in_flush_output_noop
+  from stdio calls to the bytes a consumer reads            consumer_sees_calls (one FILE), records_reach_consumer_any_schedule
+                                                              (any number of workers, both FILEs, any buffering/flush schedule;
+                                                              2>&1: per FILE only -- Stdio.shared_descriptor_witness)
+  a forked transport child must not re-send the buffer      forked_child_exit_reemits_witness (seeded C06-5)
+
+  NOT PROVED: that glibc's fputs is atomic per call w.r.t. other threads (POSIX stdio locking) and buffers like
+  the writer of Relay/Stdio.lean -- the two assumptions, made explicit there as an interleaving semantics; labels of
+  LINEBUFSIZE bytes or more (`_verr` truncates: outside the domain, `NameOk`); dsh()'s domain loop is modelled
+  (`domainLoop`) and proved equal to the property's `spansDomains`, its correspondence with the real dsh() is by the
+  pinned real runs (the in-process harness replicates the 8-line loop).
 -/
 import PdshVerif.Relay.TailLemmas
 import PdshVerif.Relay.LabelLemmas
